@@ -35,6 +35,74 @@ package gorums
 //@     decreases len(ms.less) - 1 - k
 //@   ensures[C19.b] result == lex(row(ms.less), off(ms.less), len(ms.less), 0, ms.nodes[i], ms.nodes[j])
 
+//@ func (*MultiSorter).Len
+//@   props C19
+//@   nopanic C19
+//@   requires ms != nil
+//@   ensures[C19.d] result == len(ms.nodes)
+
+//@ func (*MultiSorter).Swap
+//@   props C19
+//@   nopanic C19
+//@   requires ms != nil && 0 <= i && i < len(ms.nodes) && 0 <= j && j < len(ms.nodes)
+//@   ensures[C19.d] ms.nodes[i] == old(ms.nodes[j]) && ms.nodes[j] == old(ms.nodes[i])
+//@   ensures[C19.d] forall(m, 0, len(ms.nodes), m != i && m != j ==> ms.nodes[m] == old(ms.nodes[m]))
+//@   ensures[C19.d] ms.nodes == old(ms.nodes) && ms.less == old(ms.less)
+
+//@ func OrderedBy
+//@   props C19
+//@   ensures[C19.d] result != nil && result.less == less && len(result.nodes) == 0
+
+// Sort hands the slice to sort.Sort with ms itself as sort.Interface: the call-site
+// obligations are that ms.nodes is exactly the argument slice (so that Len/Less/Swap,
+// proved above, speak about the caller's slice) and that the dynamic type handed over
+// is *MultiSorter. sort.Sort's own contract (permutation + sortedness by Less when
+// Less is a strict weak order) is trusted (stubs/lib.spec).
+//@ func (*MultiSorter).Sort
+//@   props C19 C14
+//@   nopanic C19
+//@   requires ms != nil
+//@   on call "sort.Sort"
+//@     assert[C19.d] typeis(arg0, "*MultiSorter") && dyn(arg0) == ms
+//@     assert[C19.d] ms.nodes == nodes
+//@   ensures[C19.d] ms.nodes == nodes
+
+// Each provided key, as implemented, is a strict weak order on non-nil nodes (with a
+// channel, for LastNodeError): irreflexive, asymmetric, transitive, and with transitive
+// incomparability. The key bodies are inlined from the working tree into each lemma.
 //@ lemma C19.ID.irreflexive [C19.a] (a *RawNode): a != nil ==> !call(ID, a, a)
+//@ lemma C19.ID.asymmetric [C19.a] (a *RawNode, b *RawNode): a != nil && b != nil && call(ID, a, b) ==> !call(ID, b, a)
+//@ lemma C19.ID.transitive [C19.a] (a *RawNode, b *RawNode, c *RawNode): a != nil && b != nil && c != nil && call(ID, a, b) && call(ID, b, c) ==> call(ID, a, c)
+//@ lemma C19.ID.incomparability-transitive [C19.a] (a *RawNode, b *RawNode, c *RawNode): a != nil && b != nil && c != nil && \
+//@     !call(ID, a, b) && !call(ID, b, a) && !call(ID, b, c) && !call(ID, c, b) ==> !call(ID, a, c) && !call(ID, c, a)
+//@ lemma C19.ID.orders-by-id [C19.a,C14.a] (a *RawNode, b *RawNode): a != nil && b != nil ==> (call(ID, a, b) <==> a.id < b.id)
+
 //@ lemma C19.Port.irreflexive [C19.a] (a *RawNode): a != nil ==> !call(Port, a, a)
+//@ lemma C19.Port.asymmetric [C19.a] (a *RawNode, b *RawNode): a != nil && b != nil && call(Port, a, b) ==> !call(Port, b, a)
+//@ lemma C19.Port.transitive [C19.a] (a *RawNode, b *RawNode, c *RawNode): a != nil && b != nil && c != nil && call(Port, a, b) && call(Port, b, c) ==> call(Port, a, c)
+//@ lemma C19.Port.incomparability-transitive [C19.a] (a *RawNode, b *RawNode, c *RawNode): a != nil && b != nil && c != nil && \
+//@     !call(Port, a, b) && !call(Port, b, a) && !call(Port, b, c) && !call(Port, c, b) ==> !call(Port, a, c) && !call(Port, c, a)
+
 //@ lemma C19.LastNodeError.irreflexive [C19.a] (a *RawNode): a != nil && a.channel != nil ==> !call(LastNodeError, a, a)
+//@ lemma C19.LastNodeError.asymmetric [C19.a] (a *RawNode, b *RawNode): a != nil && b != nil && a.channel != nil && b.channel != nil && \
+//@     call(LastNodeError, a, b) ==> !call(LastNodeError, b, a)
+//@ lemma C19.LastNodeError.transitive [C19.a] (a *RawNode, b *RawNode, c *RawNode): a != nil && b != nil && c != nil && \
+//@     a.channel != nil && b.channel != nil && c.channel != nil && call(LastNodeError, a, b) && call(LastNodeError, b, c) ==> call(LastNodeError, a, c)
+//@ lemma C19.LastNodeError.incomparability-transitive [C19.a] (a *RawNode, b *RawNode, c *RawNode): a != nil && b != nil && c != nil && \
+//@     a.channel != nil && b.channel != nil && c.channel != nil && \
+//@     !call(LastNodeError, a, b) && !call(LastNodeError, b, a) && !call(LastNodeError, b, c) && !call(LastNodeError, c, b) ==> \
+//@     !call(LastNodeError, a, c) && !call(LastNodeError, c, a)
+//@ lemma C19.LastNodeError.errors-last [C19.a] (a *RawNode, b *RawNode): a != nil && b != nil && a.channel != nil && b.channel != nil ==> \
+//@     (call(LastNodeError, a, b) <==> (a.channel.lastError == nil && b.channel.lastError != nil))
+
+// The lexicographic combination of two strict weak orders is a strict weak order
+// (induction step of "lex over n keys is a strict weak order"; R, S abstract).
+//@ specfun relR(Int, Int) Bool
+//@ specfun relS(Int, Int) Bool
+//@ define relL(p Int, q Int) Bool = relR(p, q) || (!relR(q, p) && relS(p, q))
+//@ define swoR() Bool = smt("(and (forall ((a Int)) (not (sf_relR a a))) (forall ((a Int) (b Int) (c Int)) (=> (and (sf_relR a b) (sf_relR b c)) (sf_relR a c))) (forall ((a Int) (b Int) (c Int)) (=> (and (not (sf_relR a b)) (not (sf_relR b a)) (not (sf_relR b c)) (not (sf_relR c b))) (and (not (sf_relR a c)) (not (sf_relR c a))))))")
+//@ define swoS() Bool = smt("(and (forall ((a Int)) (not (sf_relS a a))) (forall ((a Int) (b Int) (c Int)) (=> (and (sf_relS a b) (sf_relS b c)) (sf_relS a c))) (forall ((a Int) (b Int) (c Int)) (=> (and (not (sf_relS a b)) (not (sf_relS b a)) (not (sf_relS b c)) (not (sf_relS c b))) (and (not (sf_relS a c)) (not (sf_relS c a))))))")
+//@ lemma C19.lex-swo.irreflexive [C19.c] (a Int): swoR() && swoS() ==> !relL(a, a)
+//@ lemma C19.lex-swo.transitive [C19.c] (a Int, b Int, c Int): swoR() && swoS() && relL(a, b) && relL(b, c) ==> relL(a, c)
+//@ lemma C19.lex-swo.incomparability-transitive [C19.c] (a Int, b Int, c Int): swoR() && swoS() && \
+//@     !relL(a, b) && !relL(b, a) && !relL(b, c) && !relL(c, b) ==> !relL(a, c) && !relL(c, a)
